@@ -280,6 +280,7 @@ pub fn run(op: &str, a: &Args) -> Option<Args> {
         "c06.and_then" => out_sel(&dec_sel(&a[0]).and_then(&dec_sel(&a[1])), repr),
         "c06.intersection" => out_sel(&dec_sel(&a[0]).intersection(&dec_sel(&a[1])), repr),
         "c06.union" => out_sel(&dec_sel(&a[0]).union(&dec_sel(&a[1])), repr),
+        "c06.concat" => out_sel(&a.iter().map(dec_sel).collect::<RowSelection>(), repr),
         "c06.split_off" => {
             let mut s = dec_sel(&a[0]);
             let head = s.split_off(to_usize(&a[1]));
@@ -513,6 +514,19 @@ fn gen_algebra(n: usize, r: &mut Rng, emit: &mut dyn FnMut(Case)) {
             let (so, ko) = enc_bits(r, &other);
             emit(Case::new("c06.eq", vec![sa.clone(), so], &["c06.eq", "c06.eq.spec"], format!("eq {ka}{ko} {what}")));
         }
+        // FromIterator<RowSelection>: all bitmaps (stays a bitmap) or mixed (flattened)
+        {
+            let n = r.below(5);
+            let all_mask = r.bool();
+            let mut items: Args = Vec::new();
+            for _ in 0..n {
+                let len = gen_len(r).min(150);
+                let bits = gen_bits(r, len);
+                items.push(if all_mask { enc_mask(r, &bits) } else { enc_bits(r, &bits).0 });
+            }
+            both(emit, "c06.concat", "c06.concat.repr", items, &["c06.concat", "c06.concat.spec"],
+                format!("concat n{n} allmask{}", all_mask as u8));
+        }
         // split_off at run boundaries +-1, 0, total, beyond
         {
             let total = ba.len();
@@ -645,6 +659,6 @@ fn gen_reads(files: usize, reads: usize, r: &mut Rng, emit: &mut dyn FnMut(Case)
 
 pub fn generate(tier: &str, r: &mut Rng, emit: &mut dyn FnMut(Case)) {
     let thorough = tier == "thorough";
-    gen_algebra(if thorough { 4000 } else { 400 }, r, emit);
-    gen_reads(if thorough { 60 } else { 10 }, if thorough { 130 } else { 80 }, r, emit);
+    gen_algebra(if thorough { 15000 } else { 1500 }, r, emit);
+    gen_reads(if thorough { 200 } else { 30 }, if thorough { 150 } else { 100 }, r, emit);
 }
